@@ -27,7 +27,7 @@ SPEC = dict(
         # ends reached next to commands (pending ones, handlers the host registered under `stop`)
         dict(family="cmds", n=(40, 300), paths=(3, 5), calls=40,
              label="YarnTrace: dialogues with commands continued after the end")],
-    scripts=dict(paths=(5, 25), calls=80),
+    scripts=dict(paths=(5, 25), calls=80, mc=dict(invariants=END, max_calls=8, after_end=3)),
     rule="flow-family programs (stop at any nesting depth with statements remaining, option groups as last statement with empty and "
          "non-empty bodies): every path to an end enumerated by TLC, then 3 further Next calls with arbitrary arguments (0, in-range "
          "indices of the last group, negative, huge) replayed; random walks of bigger programs continued 2-4 calls past the end; "
